@@ -300,3 +300,21 @@ package text
 //@ pure func CurOf(r *Reader, pos parsley.Pos) int = int(pos) - r.file.offset
 //@ pure func LenOf(r *Reader) int = r.file.len
 //@ pure func ValidPattern(expr string) bool = validPattern(expr)
+
+//@ -- ---------------------------------------------------------------- trimming
+//@ props C10
+//@ kindprops frame=C07,C14
+
+//@ -- LeftTrim: the inner parser is called exactly once, right after the whitespace run, with the caller's
+//@ -- left-recursion context; when the run satisfies the mode the inner parser's result is returned as is
+//@ closure LeftTrim$1(ctx *parsley.Context, lrc data.IntMap, pos parsley.Pos) (n parsley.Node, cp data.IntSet, err parsley.Error)
+//@   captures (p parsley.Parser, wsMode WsMode)
+//@   requires p != nil
+//@   include  parsley.Parser.Parse
+//@   let tr = ctx.Reader().(*Reader)
+//@   ensures  [once] ncalls() == 1 && callarg[*parsley.Context](1, 1) == ctx && same(callarg[data.IntMap](1, 2), lrc)
+//@   ensures  [after-run] int(callarg[parsley.Pos](1, 3)) >= int(pos) && (forall k int :: CurOf(tr, pos) <= k && k < CurOf(tr, callarg[parsley.Pos](1, 3)) ==> isWs(DataOf(tr)[k])) && (CurOf(tr, callarg[parsley.Pos](1, 3)) == LenOf(tr) || !isWs(DataOf(tr)[CurOf(tr, callarg[parsley.Pos](1, 3))]))
+//@   ensures  [transparent] wsMode == WsSpacesNl ==> same(n, callres[parsley.Node](1, 0)) && same(cp, callres[data.IntSet](1, 1)) && same(err, callres[parsley.Error](1, 2))
+//@   ensures  [accepted] err == nil && n != nil ==> same(n, callres[parsley.Node](1, 0)) && same(cp, callres[data.IntSet](1, 1))
+//@   ensures  [none-violated] wsMode == WsNone && callarg[parsley.Pos](1, 3) > pos && callres[parsley.Error](1, 2) == nil ==> n == nil && err != nil && err.Pos() == pos && parsley.IsWsErr(err)
+//@   ghost_return when err != nil && err.Pos() > parsley.GhostMaxFail :: parsley.GhostMaxFail = err.Pos()
